@@ -12,13 +12,25 @@ import PydapModel.Handler
 import Proofs.Handler
 import Proofs.HandlerWF
 import Proofs.HandlerWire
+import Proofs.Arrayterator
 namespace Pydap.Handler
 open Pydap
 
 /-- `v` is a value of DAP2 type `t` (C05's `wfVal` on the translated value) -/
 def okVal (t : Xdr.Ty) (v : Val) : Prop := Xdr.wfVal t (xVal t v) = true
 
-def Base.TY (b : Base) : Prop := ∀ v ∈ b.data, okVal (tyOf b.ty) v
+/-- the values an `Arrayterator` left in `var.data` by an earlier hyperslab can still read: the whole underlying array -/
+def Base.srcData (b : Base) : List Val :=
+  match b.view with
+  | none => []
+  | some v => v.data
+
+/-- every value of the array — those it shows and those a further hyperslab of the same request could bring back
+    from the underlying array — is a value of the declared type -/
+def Base.TY (b : Base) : Prop := ∀ v ∈ b.data ++ b.srcData, okVal (tyOf b.ty) v
+
+theorem Base.TY.data {b : Base} (h : b.TY) : ∀ v ∈ b.data, okVal (tyOf b.ty) v :=
+  fun v hv => h v (List.mem_append_left _ hv)
 
 def Member.TY : Member → Prop
   | .base b => b.TY
@@ -72,8 +84,19 @@ theorem sliceBase_ty (b b' : Base) (sl : List PSlice) (h : b.TY) (hs : sliceBase
   split at hs
   · simp only [Except.ok.injEq] at hs
     subst hs
+    have hsrc : ∀ v ∈ b.arrayterator.data, okVal (tyOf b.ty) v := by
+      intro v hv
+      unfold Base.arrayterator at hv
+      cases hvw : b.view with
+      | none => rw [hvw] at hv; exact h v (List.mem_append_left _ hv)
+      | some vw =>
+        rw [hvw] at hv
+        exact h v (List.mem_append_right _ (by simp only [Base.srcData, hvw]; exact hv))
     intro v hv
-    exact h v (mem_selND _ _ _ v hv)
+    simp only [Base.srcData, List.mem_append] at hv
+    rcases hv with hv | hv
+    · exact hsrc v (mem_selND _ _ _ v hv)
+    · exact hsrc v hv
   · simp at hs
 
 theorem findMember_ty {v : Var} {m : Str} {b : Member} (hv : v.TYo) (h : findMember v m = some b) : b.TY := by
@@ -245,22 +268,8 @@ theorem collect1Core_ty' (src : Dataset) (hsrc : src.TY) (out out' : List Var) (
           have hms : ∀ m ∈ ms, m.TY := hout _ (findVar_mem ho)
           exact map_replace_all out _ _ hout (show (Var.struct _ _).TY' src from addMember_ty hms hbty)
         · rename_i a ms ho
-          have hg : a.TY ∧ ∀ m ∈ ms, m.TY := hout _ (findVar_mem ho)
           split at h
-          · rename_i b
-            split at h
-            · split at h
-              · simp only [Except.ok.injEq] at h; subst h; exact hout
-              · rename_i m0 rest
-                simp only [Except.ok.injEq] at h; subst h
-                refine map_replace_all out _ _ hout (show (Var.grid _ _ _).TY' src from ⟨hg.2 m0 (by simp), ?_⟩)
-                intro x hx
-                simp only [List.mem_append, List.mem_singleton] at hx
-                rcases hx with hx | rfl
-                · exact hg.2 x (by simp [hx])
-                · exact hbty
-            · simp only [Except.ok.injEq] at h; subst h
-              exact map_replace_all out _ _ hout (show (Var.grid _ _ _).TY' src from ⟨hg.1, setBase_ty hg.2 hbty⟩)
+          · simp only [Except.ok.injEq] at h; subst h; exact hout
           · simp at h
         · simp at h
   · -- three parts: a member of a structure nested in a structure
@@ -599,15 +608,15 @@ theorem base_xdrWF (b : Base) (hw : b.WF) (ht : b.TY) (hs : b.Small) :
   cases hsh : b.shape with
   | nil =>
     obtain ⟨v, hv⟩ := prod_nil_data hw hsh
-    simp only [tmplOfBase, dataOfBase, hsh, hv, Xdr.WF]
+    simp only [tmplOfBase, dataOfBase, xValR_fun, xValR_eq, hsh, hv, Xdr.WF]
     exact ht v (by simp [hv])
   | cons n ns =>
-    simp only [tmplOfBase, dataOfBase, hsh, Xdr.WF, Bool.and_eq_true, beq_iff_eq, List.length_map,
+    simp only [tmplOfBase, dataOfBase, xValR_fun, xValR_eq, hsh, Xdr.WF, Bool.and_eq_true, beq_iff_eq, List.length_map,
       decide_eq_true_eq, List.all_eq_true, List.mem_map]
     have hl : b.data.length = prod (n :: ns) := by rw [← hsh]; exact hw.1
     refine ⟨⟨by rw [prod_eq]; exact hl, ?_⟩, ?_⟩
     · rintro x ⟨v, hv, rfl⟩
-      exact ht v hv
+      exact ht v (List.mem_append_left _ hv)
     · rw [hl, ← hsh]; exact hs
 
 theorem row_xdrWFs : ∀ (cols : List (Str × Str)) (r : List Val), RowTY cols r →
